@@ -58,6 +58,7 @@ fn base(name: &str, cons: Cons, cands: &[Cand]) -> Prog {
         inval: false,
         obs_d: false,
         via: false,
+        no_drop: false,
     }
 }
 
@@ -146,6 +147,33 @@ pub fn programs(family: &str, tier: Tier) -> Vec<Prog> {
         p.via = true;
         p.obs_d = true;
         p.init = vec![0, 1];
+        out.push(p);
+    }
+    if family == "via-inner" || family == "all-deep" {
+        // focused programs (3-4 symbols, observer never dropped): the only dependency is the invalidatable node of a
+        // pinned regular bind, the expert node sits above the switch of V, so "k toggles and V switches away in one
+        // stabilise" leaves it unneeded with an invalidated, still listed dependency (after seed C14-f)
+        let mut p = base("bind/i-via-pinned", Cons::Bind, &[Inner]);
+        p.toggles = vec![2];
+        p.via = true;
+        p.pin_bnd = true;
+        p.no_drop = true;
+        out.push(p);
+        let mut p = base("sum/i-via-pinned", Cons::Sum, &[Inner]);
+        p.max_mult = 1;
+        p.init = vec![1];
+        p.toggles = vec![2];
+        p.via = true;
+        p.pin_bnd = true;
+        p.no_drop = true;
+        out.push(p);
+        let mut p = base("sum/ii-via-pinned", Cons::Sum, &[Inner]);
+        p.max_mult = 2;
+        p.init = vec![2];
+        p.toggles = vec![2];
+        p.via = true;
+        p.pin_bnd = true;
+        p.no_drop = true;
         out.push(p);
     }
     if wide {
